@@ -251,7 +251,19 @@ Definition re_inst (name src : string) (g i m : bool) : list entry :=
 
 Definition spec_props : list entry :=
   fn_inst "fn" 2 ++ fn_inst "fn0" 0 ++ fn_inst "named" 3 ++ fn_inst "ctorfn" 2 ++
+  fn_inst "many" 12 ++ fn_inst "newfn" 0 ++
   bound_inst "bound" 2 ++ bound_inst "bound0" 0 ++
+  bound_inst "boundnative" 1 ++     (* Math.max.length - 1 *)
+  bound_inst "boundbound" 1 ++      (* (3 - 1) - 1 *)
+  (* 8.12.9 / 15.2.3.6 accessor made by defineProperty: absent fields default to false / undefined *)
+  [ plain "spec" "defacc" EAnyObj; mkE "spec.defacc" "x" (EGetSet true false) true false false false;
+    (* 15.2.3.9 freeze, 15.2.3.8 seal, 15.2.3.10 preventExtensions *)
+    plain "spec" "frozen" EAnyObj; mkE "spec.frozen" "a" (ENum (dbl 1)) true false true false;
+    plain "spec" "sealed" EAnyObj; mkE "spec.sealed" "a" (ENum (dbl 1)) true true true false;
+    plain "spec" "noext" EAnyObj; plain "spec.noext" "a" (ENum (dbl 1));
+    plain "spec" "dateutc" EAnyObj ] ++
+  arr_inst "arrlen" 1 [("0", ENum (dbl 1))] ++
+  arr_inst "big" 4294967295 [] ++
   (* 10.6 arguments object *)
   [ plain "spec" "args" EAnyObj;
     mkE "spec.args" "length" (ENum (dbl 2)) true true false true;
@@ -300,16 +312,21 @@ Definition spec_props : list entry :=
 
 Definition spec_objs : list oentry :=
   map (fun n => mkO ("spec." ++ n) "function" "Function" fp true VUndef)
-      ["fn"; "fn0"; "named"; "ctorfn"; "bound"; "bound0"; "args.callee"] ++
+      ["fn"; "fn0"; "named"; "ctorfn"; "many"; "newfn"; "bound"; "bound0"; "boundnative"; "boundbound"; "args.callee"] ++
   map (fun n => mkO ("spec." ++ n ++ ".prototype") "object" "Object" op true VUndef)
-      ["fn"; "fn0"; "named"; "ctorfn"] ++
+      ["fn"; "fn0"; "named"; "ctorfn"; "many"; "newfn"] ++
   [ mkO "spec.args" "object" "Arguments" op true VUndef ] ++
   map (fun n => mkO ("spec." ++ n) "object" "Array" (VObj "Array.prototype") true VUndef)
-      ["arr"; "arrctor"; "exec"; "match"; "split"; "names"; "keys"; "mapped"; "sliced"; "concat"; "json.a"] ++
+      ["arr"; "arrctor"; "arrlen"; "big"; "exec"; "match"; "split"; "names"; "keys"; "mapped"; "sliced"; "concat"; "json.a"] ++
   [ mkO "spec.str" "object" "String" (VObj "String.prototype") true (VStr "ab");
     mkO "spec.num" "object" "Number" (VObj "Number.prototype") true (VNum (dbl 5));
     mkO "spec.bool" "object" "Boolean" (VObj "Boolean.prototype") true (VBool true);
     mkO "spec.date" "object" "Date" (VObj "Date.prototype") true (VNum 0);
+    mkO "spec.dateutc" "object" "Date" (VObj "Date.prototype") true (VNum (dbl 946684800000));
+    mkO "spec.defacc" "object" "Object" op true VUndef;
+    mkO "spec.frozen" "object" "Object" op false VUndef;
+    mkO "spec.sealed" "object" "Object" op false VUndef;
+    mkO "spec.noext" "object" "Object" op false VUndef;
     mkO "spec.re" "object" "RegExp" (VObj "RegExp.prototype") true VUndef;
     mkO "spec.rector" "object" "RegExp" (VObj "RegExp.prototype") true VUndef;
     mkO "spec.err" "object" "Error" (VObj "Error.prototype") true VUndef;
@@ -336,7 +353,8 @@ Definition forin_expect : list (string * list string) :=
     ("spec.bare", []); ("spec.created", ["p"]); ("spec.json", ["a"]); ("spec.json.a", ["0"; "1"]);
     ("spec.desc", ["configurable"; "enumerable"; "value"; "writable"]);
     ("spec.exec", ["0"; "1"; "index"; "input"]); ("spec.split", ["0"; "1"]);
-    ("spec.inst", ["own"]); ("spec.getset", ["g"; "h"]);
+    ("spec.inst", ["own"]); ("spec.getset", ["g"; "h"]); ("spec.many", []); ("spec.boundnative", []);
+    ("spec.defacc", []); ("spec.frozen", ["a"]); ("spec.sealed", ["a"]); ("spec.arrlen", ["0"]); ("spec.big", []);
     ("Math", []); ("JSON", []); ("Object", []); ("Object.prototype", []); ("Array.prototype", []);
     ("String.prototype", []); ("Function.prototype", []); ("Date.prototype", []);
     ("RegExp.prototype", []); ("Error.prototype", []); ("TypeError.prototype", []); ("Number", []) ].
@@ -369,6 +387,12 @@ Definition exceptions : list exc :=
     mkX "spec" "bound0" "fn:has-prototype" 3;
     mkX "spec.bound0" "caller" "kind" 3;
     mkX "spec.bound0" "arguments" "kind" 3;
+    mkX "spec" "boundnative" "fn:has-prototype" 3;
+    mkX "spec.boundnative" "caller" "kind" 3;
+    mkX "spec.boundnative" "arguments" "kind" 3;
+    mkX "spec" "boundbound" "fn:has-prototype" 3;
+    mkX "spec.boundbound" "caller" "kind" 3;
+    mkX "spec.boundbound" "arguments" "kind" 3;
     mkX "spec.str" "0" "enumerable" 4;
     mkX "spec.str" "1" "enumerable" 4;
     mkX "Date.prototype" "" "primitive" 5;
